@@ -221,12 +221,12 @@ func (p *Program) nontrivial() bool {
 
 type bounds struct {
 	MaxLen      int
+	ExtraLen    int // single mappings additionally walk every path of this length (one donor / one sink each)
 	SetSrc      []string // predecessor root types used for sets of size >= 2
 	Set3Dst     []string // successor types for sets of size 3
 	Set3Cfg     [][]string
 	Donors2     int // donors per target in sets of size 2
 	Donors3     int
-	AllSetVals  bool
 	SingleShape []string
 }
 
@@ -234,6 +234,7 @@ func boundsFor(quick bool) bounds {
 	if quick {
 		return bounds{
 			MaxLen:      2,
+			ExtraLen:    3,
 			SetSrc:      []string{"T", "MSA"},
 			Set3Dst:     []string{"T", "MSA"},
 			Set3Cfg:     [][]string{{"S", "T"}, {"SL", "T", "MSA"}, {"LL", "T", "T"}},
@@ -245,11 +246,10 @@ func boundsFor(quick bool) bounds {
 	return bounds{
 		MaxLen:      3,
 		SetSrc:      []string{"T", "PT", "MSA", "MSS"},
-		Set3Dst:     []string{"T", "PT", "MSA", "ANY"},
-		Set3Cfg:     [][]string{{"S", "T"}, {"S", "MSA"}, {"SL", "T", "MSA"}, {"SL", "MSA", "T"}, {"LL", "T", "T"}, {"LL", "PT", "MSA"}},
+		Set3Dst:     []string{"T", "MSA"},
+		Set3Cfg:     [][]string{{"S", "T"}, {"S", "MSA"}, {"SL", "T", "MSA"}, {"LL", "T", "T"}},
 		Donors2:     2,
-		Donors3:     2,
-		AllSetVals:  true,
+		Donors3:     1,
 		SingleShape: []string{"S", "L"},
 	}
 }
@@ -275,6 +275,9 @@ func setConfigs(b bounds) [][]string {
 	var out [][]string
 	for _, a := range b.SetSrc {
 		out = append(out, []string{"S", a})
+	}
+	for _, a := range b.SetSrc {
+		out = append(out, []string{"L", a})
 	}
 	for _, a := range b.SetSrc {
 		for _, c := range b.SetSrc {
@@ -303,6 +306,38 @@ func enumerate(quick bool, yield func(p *Program) bool) {
 						p := &Program{Shape: shape, Src: []string{src}, Dst: dst, Items: []Item{{Src: 0, From: from.Path, To: to.Path}}}
 						if !yield(p) {
 							return
+						}
+					}
+				}
+			}
+		}
+	}
+	// quick: additionally every path of length MaxLen+1, once as a target (first donor) and once as a source (first sink)
+	if b.ExtraLen > b.MaxLen {
+		for _, src := range rootNames {
+			for _, dst := range rootNames {
+				for _, to := range enumPathsCached(rootTypes[dst], b.ExtraLen, sideTarget) {
+					if len(to.Path) <= b.MaxLen {
+						continue
+					}
+					if ds := donors(src, to.Leaf, b.MaxLen); len(ds) > 0 {
+						p := &Program{Shape: "S", Src: []string{src}, Dst: dst, Items: []Item{{Src: 0, From: ds[0].Path, To: to.Path}}}
+						if !yield(p) {
+							return
+						}
+					}
+				}
+				for _, from := range enumPathsCached(rootTypes[src], b.ExtraLen, sideSource) {
+					if len(from.Path) <= b.MaxLen {
+						continue
+					}
+					for _, to := range enumPathsCached(rootTypes[dst], b.MaxLen, sideTarget) {
+						if len(to.Path) > 0 && compat(from, to.Leaf) {
+							p := &Program{Shape: "S", Src: []string{src}, Dst: dst, Items: []Item{{Src: 0, From: from.Path, To: to.Path}}}
+							if !yield(p) {
+								return
+							}
+							break
 						}
 					}
 				}
@@ -384,6 +419,17 @@ func enumSets(shape string, srcs []string, dst string, targets []pathInfo, size,
 			if dyn == 0 || (symmetric && first != 0) {
 				return true
 			}
+			// a two-predecessor shape with an unused predecessor is the one-predecessor program again
+			if nslots == 2 {
+				u0, u1 := false, false
+				for _, s := range slots {
+					u0 = u0 || s == 0
+					u1 = u1 || s == 1
+				}
+				if !u0 || !u1 {
+					return true
+				}
+			}
 			// donors
 			items := make([]Item, size)
 			var recD func(pos int) bool
@@ -434,7 +480,9 @@ func enumSets(shape string, srcs []string, dst string, targets []pathInfo, size,
 	return recT(0, 0)
 }
 
-// valCombos: which predecessor values a program is run with.
+// valCombos: which predecessor values a program is run with. Single mappings: every value of the
+// predecessor type. Sets, quick: the first two values of every used slot (product). Sets, thorough: every
+// value of one used slot at a time, the other slot at its first value.
 func valCombos(p *Program, quick bool) [][]string {
 	used := map[int]bool{}
 	for _, it := range p.Items {
@@ -442,13 +490,31 @@ func valCombos(p *Program, quick bool) [][]string {
 			used[it.Src] = true
 		}
 	}
+	first := make([]string, len(p.Src))
+	for s, typ := range p.Src {
+		first[s] = valuesOf[typ][0].Name
+	}
+	if len(p.Items) > 1 && !quick {
+		out := [][]string{append([]string{}, first...)}
+		for s, typ := range p.Src {
+			if !used[s] {
+				continue
+			}
+			for _, v := range valuesOf[typ][1:] {
+				c := append([]string{}, first...)
+				c[s] = v.Name
+				out = append(out, c)
+			}
+		}
+		return out
+	}
 	per := make([][]string, len(p.Src))
 	for s, typ := range p.Src {
 		all := valuesOf[typ]
 		switch {
 		case !used[s]:
 			per[s] = []string{all[0].Name}
-		case len(p.Items) == 1 || !quick:
+		case len(p.Items) == 1:
 			for _, v := range all {
 				per[s] = append(per[s], v.Name)
 			}
